@@ -15,8 +15,8 @@ from ..render import STATEMENT_WORDS, layout_differences, render_script
 
 # statement kinds whose keywords may be re-cased (the property names CREATE TABLE / ALTER TABLE / CREATE INDEX /
 # CREATE SEQUENCE); the other kinds are only re-laid-out
-CASE_KINDS = {"tables", "ctable", "alter", "typed", "seq", "like", "dtable"}
-KINDS = ["tables", "ctable", "alter", "typed", "seq", "decl", "drop", "like", "set", "dtable"]
+CASE_KINDS = {"tables", "ctable", "alter", "typed", "seq", "like", "dtable", "xtable"}
+KINDS = ["tables", "ctable", "alter", "typed", "seq", "decl", "drop", "like", "set", "dtable", "xtable"]
 
 
 @st.composite
